@@ -1479,6 +1479,9 @@ func (ex *Exec) mapFind(m *MapV, k Val) int {
 }
 
 func (ex *Exec) mapUpdate(mv, k, v Val) {
+	if _, isOpaque := mv.(*OpaqueV); isOpaque {
+		return // a map of unknown contents stays one
+	}
 	m, ok := mv.(*MapV)
 	if !ok {
 		ex.abort("map update on %T", mv)
@@ -1498,6 +1501,15 @@ func (ex *Exec) lookup(mv, k Val, ins *ssa.Lookup) Val {
 	if !ok {
 		if _, isNil := mv.(*NilV); isNil {
 			m = &MapV{T: ins.X.Type()}
+		} else if _, isOpaque := mv.(*OpaqueV); isOpaque {
+			// a map of unknown contents (the result of a call used by contract, or a map a loop
+			// summarised by an invariant may have written): any value, present or not
+			vt := ins.X.Type().Underlying().(*types.Map).Elem()
+			v := ex.symbolic(vt, Namer{Prefix: ex.site("maplookup")})
+			if ins.CommaOk {
+				return TupleV{v, smt.Var(ex.site("maplookup!ok"), smt.Bool)}
+			}
+			return v
 		} else {
 			ex.abort("lookup on %T", mv)
 		}
